@@ -278,6 +278,11 @@ func runSeq(p *core.Program, r *core.Report, queue bool) {
 			default:
 				// merged return: the result is the element read where one was read, else the zero value
 				c.ob("AG6", fname, "result is the element read or the zero value", p.InstrPos(ret), other == 0, "the value returned is neither the element read from the designated end nor the zero value")
+				if isZ {
+					// a return that can only deliver the zero value, on a path that has not
+					// established that the container is empty
+					c.ob("PT3", fname, "zero value only for the empty container", p.InstrPos(ret), false, "the zero value is returned on a path that is not guarded by the emptiness test: a held element is withheld")
+				}
 				if s.errIndex >= 0 {
 					// every non-nil error stored must sit on the empty path
 					okE := true
@@ -924,7 +929,104 @@ func onlyViaLoopHeader(fn *ssa.Function, b *ssa.BasicBlock) bool {
 			}
 		}
 	}
+	// ... and b lies behind a loop at all: a return in front of the scan answers without
+	// having looked at a single element - unless the input is known to be empty there
+	if len(heads) > 0 {
+		behind := false
+		for _, h := range heads {
+			if h != b && h.Dominates(b) {
+				behind = true
+			}
+		}
+		if !behind && !guardedByEmptyInput(fn, b) {
+			return false
+		}
+	}
 	return true
+}
+
+// guardedByEmptyInput: b is dominated by a test that lets only len(x) == 0 through, for
+// some x (early exit for an empty input: nothing to scan).
+func guardedByEmptyInput(fn *ssa.Function, b *ssa.BasicBlock) bool {
+	return emptyInputGuards(path.Guards(fn, b))
+}
+
+// emptyInputEdge: control passes from block from to block to only for an empty input
+// (the branch at the end of from, or a guard of from, lets only len(x) == 0 through).
+func emptyInputEdge(fn *ssa.Function, from, to *ssa.BasicBlock) bool {
+	gs := append([]path.Guard(nil), path.Guards(fn, from)...)
+	if iff := path.BlockIf(from); iff != nil && len(from.Succs) == 2 && from.Succs[0] != from.Succs[1] {
+		idx := 0
+		if from.Succs[1] == to {
+			idx = 1
+		}
+		gs = append(gs, path.Guard{If: iff, Idx: idx})
+	}
+	return emptyInputGuards(gs)
+}
+
+func emptyInputGuards(gs []path.Guard) bool {
+	for _, g := range gs {
+		cd, ok := path.CondOf(g.If)
+		if !ok {
+			continue
+		}
+		truth := g.Idx == 0
+		if cd.Neg {
+			truth = !truth
+		}
+		op, l, r := cd.Op, cd.X, cd.Y
+		isLen := func(v ssa.Value) bool {
+			c, ok := v.(*ssa.Call)
+			if !ok {
+				return false
+			}
+			bi, ok := c.Call.Value.(*ssa.Builtin)
+			return ok && bi.Name() == "len"
+		}
+		if isLen(r) && !isLen(l) {
+			l, r = r, l
+			switch op {
+			case token.LSS:
+				op = token.GTR
+			case token.LEQ:
+				op = token.GEQ
+			case token.GTR:
+				op = token.LSS
+			case token.GEQ:
+				op = token.LEQ
+			}
+		}
+		k, isK := path.IntConst(r)
+		if !isLen(l) || !isK {
+			continue
+		}
+		onlyZero := true
+		for n := int64(0); n < 4; n++ {
+			var res bool
+			switch op {
+			case token.EQL:
+				res = n == k
+			case token.NEQ:
+				res = n != k
+			case token.LSS:
+				res = n < k
+			case token.LEQ:
+				res = n <= k
+			case token.GTR:
+				res = n > k
+			case token.GEQ:
+				res = n >= k
+			}
+			if (res == truth) != (n == 0) {
+				onlyZero = false
+			}
+		}
+		if onlyZero {
+			return true
+		}
+	}
+	return false
 }
 
 // listWrites counts the stores into DList / DoubleNode storage (not into by-value
